@@ -3,10 +3,12 @@
 (* Grammar transformations as input/output pairs (trace events `xform`):   *)
 (*   augment    (C12)  lr_augmentation via check_and_transform_grammar     *)
 (*   leftfactor (C10)  left_factor                                         *)
+(*   canon      (C09)  EBNF -> BNF canonicalisation (before is an EBNF      *)
+(*                     grammar, see Ebnf.tla)                              *)
 (* Every pair must preserve the bounded language of the start symbol and   *)
 (* satisfy the post-condition of its kind.                                 *)
 (***************************************************************************)
-EXTENDS Grammar, TLC, Json, IOUtils
+EXTENDS Ebnf, TLC, Json, IOUtils
 Rec == ndJsonDeserialize(IOEnv.TRACE)
 VARIABLE l
 vars == <<l>>
@@ -29,10 +31,17 @@ Check ==
   /\ l <= Len(Rec) /\ E.ev = "xform" /\ l' = l + 1
   \* every pair is judged on its own: a failing pair is reported and validation goes on
   /\ LET B == Gr(E.before)  A == Gr(E.after)  n == E.n
-         ok == /\ Lang(B, n) = Lang(A, n)
-               /\ CASE E.kind = "augment" -> StartIsolated(A) /\ NtLangsPreserved(B, A, n)
-                    [] E.kind = "leftfactor" -> NoCommonFirstSymbol(A) /\ NtLangsPreserved(B, A, n)
-                    [] OTHER -> FALSE
+         ok == CASE E.kind = "augment" -> Lang(B, n) = Lang(A, n) /\ StartIsolated(A) /\ NtLangsPreserved(B, A, n)
+                 [] E.kind = "leftfactor" -> Lang(B, n) = Lang(A, n) /\ NoCommonFirstSymbol(A) /\ NtLangsPreserved(B, A, n)
+                 [] E.kind = "canon" ->
+                      \* every user non-terminal keeps the language of its EBNF definition: in particular
+                      \* the start symbol, and no helper name coincides with a user name
+                      LET LB == LangEAll(B, n)  LA == LangAll(A, n)
+                      IN /\ B.start = A.start
+                         /\ \A X \in B.nts : X \in A.nts /\ LB[X] = LA[X]
+                         \* the result is plain BNF
+                         /\ \A i \in ProdIdx(A) : Range(Rhs(A, i)) \cap Meta = {}
+                 [] OTHER -> FALSE
      IN IF ok THEN TRUE ELSE PrintT(<<"REJECT", l, ToJson(E)>>)
 Init == l = 1
 TraceSpec == Init /\ [][Check]_vars
